@@ -9,6 +9,7 @@ import CedarVerif.Driver.Ops.Json
 import CedarVerif.Driver.Ops.Partial
 import CedarVerif.Driver.Ops.NoPanic
 import CedarVerif.Driver.Ops.Ffi
+import CedarVerif.Driver.Ops.Tyck
 /-
 Line-protocol driver: one request per line on stdin, one reply per line on stdout.
 Unknown or malformed requests answer `(bad-op)`; the driver never defaults.
@@ -28,7 +29,8 @@ def handlers : List (Sexp → Option String) := [
   Ops.handleJson,
   Ops.handlePartial,
   Ops.handleNoPanic,
-  Ops.handleFfi
+  Ops.handleFfi,
+  Ops.handleTyck
 ]
 
 def handle (x : Sexp) : String :=
